@@ -87,6 +87,10 @@ func c15Place(path, kind, content string) {
 		os.WriteFile(path, []byte(""), 0o644)
 	case "emptylist":
 		os.WriteFile(path, []byte("[]\n"), 0o644)
+	case "blank":
+		os.WriteFile(path, []byte("  \n\n"), 0o644)
+	case "comment":
+		os.WriteFile(path, []byte("# my commands\n# none yet\n"), 0o644)
 	case "stale":
 		os.WriteFile(path, []byte("- command: \"old-backup-only\"\n  description: \"stale\"\n  keywords: [\"old\"]\n  pipeline: false\n"), 0o644)
 	}
@@ -95,7 +99,7 @@ func c15Place(path, kind, content string) {
 func c15Gen(r *rand.Rand, id int) c15Case {
 	c := c15Case{ID: id}
 	c.Main = []string{"good", "good", "missing", "dir", "unreadable", "malformed", "empty"}[r.Intn(7)]
-	c.Personal = []string{"absent", "absent", "good", "malformed", "dir", "unreadable"}[r.Intn(6)]
+	c.Personal = []string{"absent", "absent", "good", "malformed", "dir", "unreadable", "empty", "blank", "comment", "emptylist"}[r.Intn(10)]
 	c.Backup = []string{"absent", "absent", "good", "empty", "emptylist", "stale", "malformed", "dir"}[r.Intn(8)]
 	c.Cfg = c15Cfg{MaxAttempts: []int{-1, 0, 1, 2, 3, 3, 4}[r.Intn(7)], BaseNS: []int64{0, 1000000, 2000000}[r.Intn(3)],
 		MaxNS: []int64{1000000, 3000000, 5000000000, 0}[r.Intn(4)]}
